@@ -133,8 +133,20 @@ def r1_extent_check(ctx):
     three = [c for c in chk if kw(c, "readout_times") is not None]
     ok = ok and len(three) == 1 and dotted(kw(three[0], "readout_times")) == "readout_times"
     ctx.check(ok, cf.qual + "#bounds", "target range checked against rows/cols(/readout_times)" if ok else "the target range is not checked against the target's size on both the 2-D and the 3-D path", where=cf, node=chk[0] if chk else cf.node)
-    early = [r for r in returns_of(cf)]
-    ok = all(knows(enclosing_tests(r), f"not {cf.params[0]}") or knows(enclosing_tests(r), f"{cf.params[0]} is None") for r in early)
+    # decided per path (sa/paths.py): a path that ends normally without the bounds check is one on which the
+    # target range is known to be absent
+    from sa.paths import enumerate_paths
+
+    tg_ = cf.params[0]
+    ok = True
+    early = []
+    for q_ in enumerate_paths(cf.node.body):
+        if q_.exit not in ("return", "fall"):
+            continue
+        absent = q_.holds(tg_) is False or q_.holds(f"{tg_} is None") is True or q_.holds(f"{tg_} is not None") is False
+        if not absent and not q_.called("check"):
+            ok = False
+            early.append(q_.exit_node or cf.node)
     ctx.check(ok, cf.qual + "#early-return", "only an absent target range skips the checks" if ok else "checks are skipped for another reason", where=cf, node=early[0] if early else cf.node)
 
 
